@@ -449,7 +449,13 @@ impl Gen {
 
     fn stmt_set(&mut self, depth: usize) -> Option<St> {
         if self.fault("B2-set-unknown") {
-            let value = self.expr(&Ty::Prim(PT::U8), depth)?;
+            // half of the time the assigned expression has a violation of its own, which must be
+            // reported first (the expression is analysed before the target is looked up)
+            let value = if self.frng.chance(1, 2) {
+                Ex::single(EV::Var(format!("{UNKNOWN}2")))
+            } else {
+                self.expr(&Ty::Prim(PT::U8), depth)?
+            };
             return Some(St::Set(SetS {
                 name: UNKNOWN.to_string(),
                 value,
